@@ -11,6 +11,9 @@ mod pool;
 mod poolgen;
 mod votor;
 mod c09;
+mod c20;
+mod c19;
+mod c11;
 mod c12;
 mod c13;
 mod c14;
@@ -159,6 +162,9 @@ fn real_main() {
                 "C12" => c12::gen_c12(seed, tier),
                 "C13" => c13::gen_c13(seed, tier),
                 "C14" => c14::gen_c14(seed, tier),
+                "C11" => c11::gen_c11(seed, tier),
+                "C19" => c19::gen_c19(seed, tier),
+                "C20" => c20::gen_c20(seed, tier),
                 "C15" => c15::generate(seed, tier),
                 "C03" => poolgen::gen_c03(seed, tier),
                 "C04" => poolgen::gen_c04(seed, tier),
